@@ -183,7 +183,8 @@ class C07:
             if route == 'points':
                 pts = b.emit('points_from_grid',
                              {'det': img, 'perm_seed': rng.randrange(10 ** 6),
-                              'k': rng.choice([None, k])}, store='pts')
+                              'k': rng.choice([None, k]),
+                              'as_float': rng.random() < 0.5}, store='pts')
                 calc(pts, pi, kind, extra_tags={'route': 'points'}, oi=oi)
             elif route == 'subset_calc':
                 sub = b.emit('make_subset',
